@@ -91,6 +91,9 @@ def emit(t, modname, cfgid, sp=None, pre='', law_t=None, classes=(), xf=None):
     kani::cover!(!o, "oracle ne");
     assert!((a == b) == o, "eq differs from field-wise oracle");
     assert!((a != b) == !o, "ne is not the negation of the oracle");
+    // the same object on both sides (a pointer-equality shortcut must not change the result)
+    let oa = oracle_eq(&a, &a);
+    assert!((a == a) == oa, "a == a by the same reference differs from the field-wise oracle");
 }
 '''
     hs = [Harness('h_eq', covers=covers)]
@@ -130,7 +133,7 @@ def configs(tier, seed):
     if tier == 'quick':
         shapes = S.quick_core(CODES) + S.seeded_extra(CODES, seed, 10)
     else:
-        shapes = S.struct_shapes(CODES) + S.enum_shapes_thorough(CODES) + S.seeded_extra(CODES, seed, 60)
+        shapes = S.struct_shapes(CODES, 4) + S.enum_shapes_thorough(CODES) + S.four_variant_enums(CODES) + S.seeded_extra(CODES, seed, 60)
     for n, sh in enumerate(shapes):
         carrier, with_eq = [('PartialEq', False), ('PartialEq', True), ('Eq', True)][n % 3]
         out.append((f'{S.shape_id(sh)}/carrier={carrier}/eq={int(with_eq)}', sh, carrier, with_eq))
@@ -179,7 +182,7 @@ RULE = ('one config = one derive request (shape x per-field {plain u8, plain Mod
         'inside a config nothing is sampled: both operands (and the triple for the laws) are arbitrary values incl. the variant, '
         'decided by CBMC/CaDiCaL. A config counts as non-trivial when every harness passed and every cover witness '
         '(oracle-equal pair, oracle-unequal pair, transitive chain) was SATISFIED.')
-BOUNDS = dict(max_fields=3, max_variants=3, field_types=['u8', 'Mod4'], methods=['eq_le (asymmetric)', 'eq_half (lawful)'],
+BOUNDS = dict(max_fields='3 (quick), 4 (thorough)', max_variants='3 (quick), 4 (thorough)', field_types=['u8', 'Mod4'], methods=['eq_le (asymmetric)', 'eq_half (lawful)'],
               outside=['>3 fields or variants', 'field types other than u8/Mod4', 'unions (C20)'])
 ASSUME = ['Kani 0.68 / CBMC 6.11 / CaDiCaL; rustc nightly-2026-08-21 x86_64 dev profile',
           'oracle written from the config by vk/p_c02.py, never from the expansion',
